@@ -160,6 +160,48 @@ class Driver:
         self.committed(t, tid, recs)
         return 'store(%d)' % n
 
+    def op_resolved(self):
+        """store onto a resolvable object with a stale serial: the class merge must be stored"""
+        cands = [o for o in self.spec.oids() if self.classes.get(o) in ('counter', 'uset') and len([d for (_, d) in self.spec.revs(o) if d is not None]) >= 2
+                 and self.spec.current(o)[1] is not None]
+        if not cands:
+            return None
+        o = self.rnd.choice(cands)
+        revs = self.spec.revs(o)
+        old_i = self.rnd.randrange(len(revs) - 1)
+        if revs[old_i][1] is None:
+            return None
+        self.uid += 1
+        save_p = self.equal_p
+        self.equal_p = 0
+        new = self.new_data(o)
+        self.equal_p = save_p
+        exp = self.resolver(o, revs[old_i][1], revs[-1][1], new) if self.resolver else None
+        t = self.meta()
+        st = self.st
+        st.tpc_begin(t)
+        self.mark('begin', self.ncommit + 1)
+        try:
+            st.store(o, revs[old_i][0], new, '', t)
+        except ConflictError:
+            st.tpc_abort(t)
+            self.mark('abort_ret', self.ncommit + 1)
+            if exp is not None:
+                raise Mismatch('resolved-store:refused-but-model-merges', {'oid': o})
+            return 'resolve-refused'
+        if exp is None:
+            st.tpc_abort(t)
+            raise Mismatch('resolved-store:accepted-but-model-cannot-merge', {'oid': o})
+        st.tpc_vote(t)
+        self.mark('vote_ret', self.ncommit + 1)
+        tid = st.tpc_finish(t)
+        data = st.load(o)[0]
+        if not exp.matches(data):
+            raise Mismatch('resolved-store:stored-state-differs-from-class-merge', {'oid': o, 'model': exp.state, 'real': objs.decode_record(data)[1]})
+        self.committed(t, tid, [(o, data)])
+        self.features.add('resolved-store')
+        return 'resolved(%d)' % u64(o)
+
     def op_delete(self):
         live = [o for o in self.spec.oids() if self.spec.current(o)[1] is not None]
         if not live:
@@ -295,6 +337,8 @@ class Driver:
             self.features.add(d.split('(')[0])
         elif k == 'delete':
             d = self.op_delete()
+        elif k == 'resolved':
+            d = self.op_resolved()
         elif k == 'restore':
             d = self.op_restore()
         elif k == 'undo':
